@@ -155,7 +155,7 @@ func init() {
 		Title:    "'+' reaches exactly the later versions of the same family; table well-formed",
 		Explorer: "E1 exhaustive family x version-pair x spelling enumeration vs R-ver (natural version order) + complete table audit",
 		Rule: "for every family of the built table: every ordered pair of listed versions of that family by R-ver (including ids the table forgot) in spellings {plain,-only,+,-or-later}: Satisfies both ways vs natural order; " +
-			"for every table id a and every listed id b that is not a version of a's family: no match through '+' in either role; plus a complete audit of the table (listedness, uniqueness, ascending order, one version per step, completeness); " +
+			"for every family every ordered pair of '+' entries (x+, z+) as a two-entry allowed list (also with an unrelated entry between them) x every member y; for every table id a and every listed id b that is not a version of a's family: no match through '+' in either role; plus a complete audit of the table (listedness, uniqueness, ascending order, one version per step, completeness); " +
 			"state = (a-spelling, b-spelling) pair, 2 transitions each; non-trivial = pairs inside one family whose versions differ",
 		Assumptions: []string{
 			"R-ver (rterm.go): family base = longest common prefix cut at '-', version = remainder after -only/-or-later, compared run-wise; shapes not of the form N(.N)*[a-z]? and not present in the family are impure and only checked for listedness/uniqueness",
@@ -313,6 +313,61 @@ func c11Run(c *Ctx) {
 								c.Report(Violation{Kind: "c11.case", Class: "equal-version", Key: "eq:" + a + "<>" + b, Msg: msg, Size: len(a) + len(b),
 									Case: mustJSON(c11Case{Kind: "reach", A: a, B: b, Want: want, Family: f.Index})})
 							}
+						}
+					}
+				}
+			}
+		}
+	}
+	// two '+' entries of ONE family in the allowed list, in both orders: y is covered iff it is at or
+	// after the EARLIER of the two (an implementation that prunes or merges entries must keep the reach)
+	for _, f := range fams {
+		if f.Shadowed || f.Base == "" {
+			continue
+		}
+		for _, x := range f.Members {
+			for _, z := range f.Members {
+				idx++
+				if !c.Mine(idx) {
+					continue
+				}
+				if c.Expired() {
+					return
+				}
+				if x == z || pos[stripSuffix(x)].Count > 1 || pos[stripSuffix(z)].Count > 1 || pos[x].Count > 1 || pos[z].Count > 1 {
+					continue
+				}
+				xs, zs := c11Spell(x, true), c11Spell(z, true)
+				if len(xs) == 0 || len(zs) == 0 {
+					continue
+				}
+				a1, a2 := xs[0], zs[0]
+				for _, y := range f.Members {
+					if pos[stripSuffix(y)].Count > 1 || pos[y].Count > 1 {
+						continue
+					}
+					ys := c11Spell(y, false)
+					if len(ys) == 0 {
+						continue
+					}
+					b := ys[0]
+					want := cmpVer(f.rem(y), f.rem(x)) >= 0 || cmpVer(f.rem(y), f.rem(z)) >= 0
+					for _, l := range [][]string{{a1, a2}, {a1, "0BSD", a2}} {
+						r := Sat(b, l)
+						c.Inc("states")
+						c.Inc("transitions")
+						c.Inc("evaluations")
+						if r.Panic != "" || r.IsErr {
+							c.Inc("skipped_error_or_panic")
+							continue
+						}
+						c.Inc("traces")
+						c.Inc("nontrivial")
+						c.Outcome(fmt.Sprintf("two-plus-entries:want=%v", want))
+						if r.Ok != want {
+							c.Report(Violation{Kind: "c11.case", Class: "reach-two-plus-entries", Key: "reach-list:" + strings.Join(l, ",") + "->" + b, Size: len(a1) + len(a2) + len(b) + 10,
+								Msg:  fmt.Sprintf("Satisfies(%q, %q) = %v, natural version order says %v", b, l, r.Ok, want),
+								Case: mustJSON(c11Case{Kind: "reach-list", A: strings.Join(l, "\x00"), B: b, Want: want, Family: f.Index})})
 						}
 					}
 				}
